@@ -48,7 +48,7 @@ def exc_site(ex) -> str:
 def c01_return_value(spec: dict, obs, ex: refmodel.Expect) -> list[Finding]:
     out: list[Finding] = []
     if obs.timeout:
-        return [Finding('C01:harness-timeout', exc_text(obs.exc))]
+        return []   # a hang is C11's subject; the case is counted inconclusive here
     if obs.outcome != 'return':
         return [Finding(f'C01:all-succeed-but-raised:{type(obs.exc).__name__}@{exc_site(obs.exc)}', exc_text(obs.exc))]
     nodes = {n['id']: n for n in spec['nodes']}
@@ -64,3 +64,508 @@ def c01_return_value(spec: dict, obs, ex: refmodel.Expect) -> list[Finding]:
     if not obs.returned_key_ids_ok:
         out.append(Finding('C01:key-not-a-requested-object', 'a returned key is not one of the requested task objects'))
     return out
+
+
+# ---------------------------------------------------------------------------------------------------
+# history helpers
+# ---------------------------------------------------------------------------------------------------
+
+class Hist:
+    """Indexes the runner-level event log and the run() trace of one run."""
+
+    def __init__(self, spec: dict, obs, ex: refmodel.Expect):
+        self.spec = spec
+        self.obs = obs
+        self.ex = ex
+        self.nodes = {n['id']: n for n in spec['nodes']}
+        self.by_name = {n['name']: n for n in spec['nodes']}
+        self.controlled = spec['lab']['backend'] == 'controlled'
+        self.req = [r['ref'] for r in spec['requested']]
+        self.closure = specs.closure(spec, self.req)
+        self.events = obs.events
+        self.trace = obs.trace
+        mw = spec['lab'].get('max_workers')
+        if spec['lab']['backend'] == 'serial':
+            self.max_workers = 1
+        else:
+            self.max_workers = mw if mw is not None else None   # None => cpu default, resolved by caller
+
+    def nid(self, name: str) -> int:
+        return self.by_name[name]['id']
+
+    def type_of(self, name: str) -> str:
+        return self.by_name[name]['type']
+
+
+def trace_S(obs) -> list[str]:
+    return [r[1] for r in obs.trace if r[0] == 'S']
+
+
+# ---------------------------------------------------------------------------------------------------
+# C02: ordering and dependency reads
+# ---------------------------------------------------------------------------------------------------
+
+def c02_ordering(spec: dict, obs, ex: refmodel.Expect) -> list[Finding]:
+    out: list[Finding] = []
+    h = Hist(spec, obs, ex)
+    # (a) runner level: a task is submitted only after every task in its parameters has been handed back by wait()
+    finished: set[str] = set()
+    for ev in obs.events:
+        if ev[0] == 'yield':
+            finished.add(ev[1])
+        elif ev[0] == 'submit' and not ev[2]:
+            node = h.by_name[ev[1]]
+            for j in specs.direct_deps(node):
+                dn = h.nodes[j]['name']
+                if dn not in finished:
+                    out.append(Finding('C02:submitted-before-dependency-finished',
+                                       f'{ev[1]} submitted for execution before dependency {dn} finished'))
+    # (b) trace level (real processes): S t comes after the end record of every executed dependency
+    ended: set[str] = set()
+    for r in obs.trace:
+        if r[0] in ('E', 'X', 'K'):
+            ended.add(r[1])
+        elif r[0] == 'S':
+            node = h.by_name[r[1]]
+            for j in specs.direct_deps(node):
+                dn = h.nodes[j]['name']
+                if ex.status.get(j) != 'loaded' and dn not in ended:
+                    out.append(Finding('C02:run-began-before-dependency-ended',
+                                       f'run() of {r[1]} began before dependency {dn} ended'))
+    # (c) every read inside run() yields the dependency's real value of this run, or raises TaskError if it failed
+    for r in obs.trace:
+        if r[0] != 'R':
+            continue
+        reader, dep = r[1], r[2]
+        j = h.nid(dep)
+        st = ex.status.get(j)
+        if st in ('ok', 'loaded'):
+            if r[3] == 'EXC':
+                out.append(Finding(f'C02:read-of-successful-dependency-raised:{r[4]}',
+                                   f'{reader} reading {dep}.result raised {r[4]}'))
+            elif r[3] != digest(ex.value[j]):
+                out.append(Finding('C02:read-yielded-wrong-value', f'{reader} read {dep}: digest {r[3]} != {digest(ex.value[j])}'))
+        elif st == 'failed':
+            if r[3] != 'EXC':
+                out.append(Finding('C02:read-of-failed-dependency-returned-a-value', f'{reader} read failed {dep} and got digest {r[3]}'))
+            elif r[4] != 'labtech.exceptions.TaskError':
+                out.append(Finding(f'C02:read-of-failed-dependency-raised:{r[4]}', f'{reader} reading failed {dep} raised {r[4]}, not TaskError'))
+    # (d) a failed dependency must not abort the run in the caller instead of raising at the read
+    if obs.outcome == 'raise' and not obs.timeout and spec['lab'].get('continue_on_failure', True):
+        if isinstance(obs.exc, KeyError) and exc_site(obs.exc) != 'lab.py:run_tasks':
+            out.append(Finding(f'C02:failed-dependency-aborted-run-in-caller:KeyError@{exc_site(obs.exc)}', exc_text(obs.exc)))
+    return _dedupe(out)
+
+
+def _dedupe(fs: list[Finding]) -> list[Finding]:
+    seen, out = set(), []
+    for f in fs:
+        if f.signature not in seen:
+            seen.add(f.signature)
+            out.append(f)
+    return out
+
+
+# ---------------------------------------------------------------------------------------------------
+# C03: at most once, only if needed, result_meta on every instance
+# ---------------------------------------------------------------------------------------------------
+
+def walk_instances(built, ex: refmodel.Expect):
+    """Caller-side task objects that the statement says must be marked: the requested objects and, recursively,
+    the objects inside parameters of executed (not loaded) tasks. Yields (nid, object)."""
+    seen: set[int] = set()
+    stack = list(built.requested)
+    while stack:
+        t = stack.pop()
+        if id(t) in seen:
+            continue
+        seen.add(id(t))
+        nid = built.id_of(t)
+        yield nid, t
+        if ex.status.get(nid) in ('ok', 'failed'):
+            stack.extend(vu.walk_tasks(t.deps))
+
+
+def c03_once_only_if_needed(spec: dict, obs, ex: refmodel.Expect) -> list[Finding]:
+    out: list[Finding] = []
+    h = Hist(spec, obs, ex)
+    aborted = obs.outcome == 'raise'
+    # executions
+    s_names = trace_S(obs)
+    counts: dict[str, int] = {}
+    for n in s_names:
+        counts[n] = counts.get(n, 0) + 1
+    for n, c in counts.items():
+        nid = h.nid(n)
+        if c > 1:
+            out.append(Finding('C03:executed-more-than-once', f'{n} executed {c} times'))
+        if nid not in h.closure:
+            out.append(Finding('C03:executed-outside-closure', f'{n} is outside the requested closure'))
+        elif ex.status.get(nid) == 'loaded':
+            out.append(Finding('C03:cached-task-executed', f'{n} is cached and bust_cache is off, but run() was called'))
+        elif nid not in ex.status:
+            out.append(Finding('C03:dependency-of-cached-task-touched', f'{n} is only needed by cached tasks but was executed'))
+    if not aborted:
+        for nid in ex.executed:
+            n = h.nodes[nid]['name']
+            if counts.get(n, 0) == 0:
+                out.append(Finding('C03:needed-task-not-executed', f'{n} should have executed'))
+    # submissions (loads are visible only here)
+    subs: dict[str, list] = {}
+    for ev in obs.events:
+        if ev[0] == 'submit':
+            subs.setdefault(ev[1], []).append(ev[2])
+    for n, flags in subs.items():
+        nid = h.nid(n)
+        if len(flags) > 1:
+            out.append(Finding('C03:submitted-more-than-once', f'{n} submitted {len(flags)} times'))
+        if nid not in ex.status:
+            out.append(Finding('C03:unneeded-task-submitted', f'{n} submitted although nothing needs it'))
+            continue
+        want_load = ex.status[nid] == 'loaded'
+        if flags[0] != want_load:
+            out.append(Finding('C03:load-vs-execute-decision-wrong', f'{n} submitted with use_cache={flags[0]}, expected {want_load}'))
+    if not aborted:
+        for nid in ex.loaded:
+            if h.nodes[nid]['name'] not in subs:
+                out.append(Finding('C03:cached-task-not-loaded', f'{h.nodes[nid]["name"]} should have been loaded'))
+        # result_meta on every instance
+        metas: dict[int, list] = {}
+        for nid, t in walk_instances(obs.built, ex):
+            ok = ex.status.get(nid) in ('ok', 'loaded')
+            if ok and t.result_meta is None:
+                out.append(Finding('C03:instance-not-marked-with-result_meta', f'an instance of {t.name} has result_meta None'))
+            if not ok and t.result_meta is not None:
+                out.append(Finding('C03:failed-task-instance-has-result_meta', f'an instance of failed {t.name} has result_meta'))
+            metas.setdefault(nid, []).append(t.result_meta)
+        for nid, ms in metas.items():
+            if any(m != ms[0] for m in ms):
+                out.append(Finding('C03:instances-disagree-on-result_meta', f'{h.nodes[nid]["name"]}: {ms}'))
+    return _dedupe(out)
+
+
+# ---------------------------------------------------------------------------------------------------
+# C04: limits
+# ---------------------------------------------------------------------------------------------------
+
+def c04_limits(spec: dict, obs, ex: refmodel.Expect, cpu_default: int) -> tuple[list[Finding], bool]:
+    """Returns (findings, binding) where binding says a limit was actually reached at some instant."""
+    out: list[Finding] = []
+    h = Hist(spec, obs, ex)
+    backend = spec['lab']['backend']
+    mw = 1 if backend == 'serial' else (spec['lab'].get('max_workers') or cpu_default)
+    binding = False
+    # coordinator level: submitted-and-unfinished per type never exceeds max_parallel
+    active: dict[str, set] = {}
+    for ev in obs.events:
+        if ev[0] == 'submit':
+            t = h.type_of(ev[1])
+            active.setdefault(t, set()).add(ev[1])
+            lim = vu.MAX_PARALLEL[t]
+            if lim is not None:
+                if len(active[t]) > lim:
+                    out.append(Finding('C04:per-type-limit-exceeded-at-submit', f'type {t}: {sorted(active[t])} in flight, max_parallel={lim}'))
+                if len(active[t]) == lim:
+                    binding = True
+        elif ev[0] == 'yield':
+            active.get(h.type_of(ev[1]), set()).discard(ev[1])
+    # process level: every prefix of the run() trace
+    running: dict[str, str] = {}
+    pids = set()
+    for r in obs.trace:
+        if r[0] == 'S':
+            running[r[1]] = r[5] if len(r) > 5 else h.type_of(r[1])
+            pids.add(r[2])
+            per: dict[str, int] = {}
+            for n, t in running.items():
+                per[t] = per.get(t, 0) + 1
+            for t, c in per.items():
+                lim = vu.MAX_PARALLEL.get(t)
+                if lim is not None and c > lim:
+                    out.append(Finding('C04:per-type-limit-exceeded-in-run', f'{c} tasks of type {t} inside run() at once: {sorted(running)}'))
+            if backend != 'controlled':
+                if len(running) > mw:
+                    out.append(Finding('C04:max_workers-exceeded', f'{len(running)} tasks inside run() at once, max_workers={mw}: {sorted(running)}'))
+                if len(running) == mw:
+                    binding = True
+        elif r[0] in ('E', 'X', 'K'):
+            running.pop(r[1], None)
+    if backend == 'serial':
+        # one at a time, in the caller's process and thread
+        me = str(__import__('os').getpid())
+        for r in obs.trace:
+            if r[0] == 'S' and (r[2] != me or r[4] != str(__import__('threading').get_native_id())):
+                out.append(Finding('C04:serial-not-in-caller-thread', f'{r[1]} ran in pid {r[2]} tid {r[4]}'))
+    return _dedupe(out), binding
+
+
+# ---------------------------------------------------------------------------------------------------
+# C05: maximal parallelism
+# ---------------------------------------------------------------------------------------------------
+
+def c05_maximal(spec: dict, obs, ex: refmodel.Expect, cpu_default: int) -> tuple[list[Finding], bool]:
+    out: list[Finding] = []
+    h = Hist(spec, obs, ex)
+    backend = spec['lab']['backend']
+    nontrivial = False
+    submitted: set[str] = set()
+    finished: set[str] = set()
+    last_batch: set[str] = set()
+    cancelled = False
+
+    def runnable_but_not_submitted() -> list[str]:
+        active: dict[str, int] = {}
+        for n in submitted - finished:
+            active[h.type_of(n)] = active.get(h.type_of(n), 0) + 1
+        res = []
+        for nid in ex.status:            # nodes the run needs
+            n = h.nodes[nid]['name']
+            if n in submitted:
+                continue
+            deps = [h.nodes[j]['name'] for j in ex.deps_in_run.get(nid, [])]
+            if any(d not in finished for d in deps):
+                continue
+            lim = vu.MAX_PARALLEL[h.type_of(n)]
+            if lim is not None and active.get(h.type_of(n), 0) >= lim:
+                continue
+            res.append(n)
+        return res
+
+    for ev in obs.events:
+        kind = ev[0]
+        if kind == 'submit':
+            submitted.add(ev[1])
+        elif kind == 'yield':
+            finished.add(ev[1])
+        elif kind == 'batch':
+            last_batch = set(ev[1])
+        elif kind == 'cancel':
+            cancelled = True
+        elif kind in ('wait', 'rest') and not cancelled:
+            if kind == 'wait' and backend != 'controlled':
+                continue   # real backends are judged at rest points only
+            idle = runnable_but_not_submitted()
+            if idle:
+                out.append(Finding('C05:runnable-task-not-submitted-before-wait',
+                                   f'at {kind}: {idle} runnable (dependencies finished, type below limit) but not started'))
+            if kind == 'rest':
+                blocked, unfinished, expected = ev[1], ev[2], ev[3]
+                if len(blocked) < expected:
+                    out.append(Finding('C05:free-worker-not-used-at-rest',
+                                       f'at rest {len(blocked)} tasks inside run() ({blocked}), expected {expected}; submitted-unfinished {unfinished}'))
+                # non-trivial: a newly unblocked node must be among the running ones, or a queued node took a freed slot
+                for n in blocked:
+                    deps = {h.nodes[j]['name'] for j in ex.deps_in_run.get(h.nid(n), [])}
+                    if deps & last_batch:
+                        nontrivial = True
+                if len(unfinished) > len(blocked) and last_batch:
+                    nontrivial = True
+            else:
+                running = set(ev[1])
+                for n in running:
+                    deps = {h.nodes[j]['name'] for j in ex.deps_in_run.get(h.nid(n), [])}
+                    if deps & last_batch:
+                        nontrivial = True
+                if ev[2] and last_batch:
+                    nontrivial = True
+    if backend == 'serial':
+        # exactly one task runs per wait(): S records strictly sequential (checked by C04); every wait that has
+        # submitted-unfinished work must hand back exactly one task
+        pass
+    return _dedupe(out), nontrivial
+
+
+# ---------------------------------------------------------------------------------------------------
+# C10: failure isolation
+# ---------------------------------------------------------------------------------------------------
+
+def c10_isolation(spec: dict, obs, ex: refmodel.Expect) -> list[Finding]:
+    out: list[Finding] = []
+    h = Hist(spec, obs, ex)
+    lab = spec['lab']
+    failing = [i for i, s in ex.status.items() if s == 'failed']
+    if obs.timeout:
+        return []
+    if lab.get('continue_on_failure', True):
+        if obs.outcome != 'return':
+            return [Finding(f'C10:continue_on_failure-but-raised:{type(obs.exc).__name__}@{exc_site(obs.exc)}', exc_text(obs.exc))]
+        want = [(h.nodes[i]['name'], v) for i, v in ex.returned(spec)]
+        got = obs.returned
+        if [n for n, _ in got] != [n for n, _ in want]:
+            out.append(Finding('C10:returned-keys-differ', f'returned {[n for n, _ in got]} expected {[n for n, _ in want]}'))
+        else:
+            for (n, gv), (_, wv) in zip(got, want):
+                if gv != wv:
+                    out.append(Finding('C10:returned-value-differs', f'{n}: {gv!r} != {wv!r}'))
+        s_names = set(trace_S(obs))
+        for nid in ex.executed:
+            if h.nodes[nid]['name'] not in s_names:
+                out.append(Finding('C10:independent-task-not-executed', f'{h.nodes[nid]["name"]} was never executed'))
+        if lab.get('storage', 'local') != 'none':
+            for nid, cached in obs.cached_after.items():
+                want_c = nid in ex.new_model
+                if cached and not want_c:
+                    why = 'failed' if ex.status.get(nid) == 'failed' else 'never ran / not cacheable'
+                    out.append(Finding(f'C10:entry-cached-for-task-that-{"failed" if why == "failed" else "should-not-be-cached"}',
+                                       f'{h.nodes[nid]["name"]} is cached after the run ({why})'))
+                if want_c and not cached:
+                    out.append(Finding('C10:successful-task-not-cached', f'{h.nodes[nid]["name"]} succeeded but is not cached'))
+    else:
+        if not failing:
+            if obs.outcome != 'return':
+                out.append(Finding(f'C10:no-failure-but-raised:{type(obs.exc).__name__}', exc_text(obs.exc)))
+            return out
+        if obs.outcome != 'raise':
+            return [Finding('C10:failure-not-raised', f'nodes {failing} fail but run_tasks returned normally')]
+        from labtech.exceptions import LabError
+        if not isinstance(obs.exc, LabError):
+            out.append(Finding(f'C10:raised-not-LabError:{type(obs.exc).__name__}@{exc_site(obs.exc)}', exc_text(obs.exc)))
+        else:
+            cause = obs.exc.__cause__
+            allowed = set()
+            strict = True
+            for i in failing:
+                why = ex.why[i]
+                if why.startswith('raise:'):
+                    name = why.split(':', 1)[1]
+                    allowed.add(name)
+                    if name == 'UnpicklableErr' and lab['backend'] != 'serial':
+                        strict = False
+                elif why.startswith('flag:'):
+                    allowed.add('CustomErr')
+                elif why in ('kill9', 'kill15'):
+                    allowed.add('TaskDiedError')
+                elif why == 'exit':
+                    allowed.add('SystemExit')
+                elif why == 'baseexc':
+                    allowed.add('CustomBase')
+                elif why.startswith('dep:'):
+                    allowed.add('TaskError')
+                elif why == 'unpicklable':
+                    strict = False
+            if obs.started_after_raise:
+                out.append(Finding('C10:task-started-after-run_tasks-raised', f'{obs.started_after_raise} started after the raise'))
+            if cause is None:
+                out.append(Finding('C10:LabError-without-cause', exc_text(obs.exc)))
+            elif strict and type(cause).__name__ not in allowed:
+                out.append(Finding(f'C10:LabError-cause-is-not-the-tasks-exception:{type(cause).__name__}',
+                                   f'{exc_text(obs.exc)}; failing nodes raise {sorted(allowed)}'))
+    return _dedupe(out)
+
+
+# ---------------------------------------------------------------------------------------------------
+# C11: termination (logical detector on the ControlledRunner; watchdog on real backends)
+# ---------------------------------------------------------------------------------------------------
+
+def c11_terminates(spec: dict, obs, ex: refmodel.Expect) -> list[Finding]:
+    out: list[Finding] = []
+    n = len(spec['nodes'])
+    waits = 0
+    for ev in obs.events:
+        if ev[0] == 'wait':
+            waits += 1
+            if spec['lab']['backend'] == 'controlled' and not ev[1] and not ev[2]:
+                out.append(Finding('C11:waiting-with-nothing-executing-or-runnable',
+                                   'wait() called while no task is in flight or queued'))
+    if spec['lab']['backend'] == 'controlled' and waits > 4 * n + 12:
+        out.append(Finding('C11:too-many-wait-rounds', f'{waits} wait() calls for {n} nodes'))
+    return _dedupe(out)
+
+
+# ---------------------------------------------------------------------------------------------------
+# C17: result retention
+# ---------------------------------------------------------------------------------------------------
+
+def c17_retention(spec: dict, obs, ex: refmodel.Expect) -> tuple[list[Finding], bool]:
+    out: list[Finding] = []
+    h = Hist(spec, obs, ex)
+    backend = spec['lab']['backend']
+    nontrivial = False
+    if backend == 'controlled':
+        ok_done: set[str] = set()       # handed back successfully
+        finished: set[str] = set()      # coordinator has fully processed the completion
+        dependents: dict[str, set] = {}
+        for nid in ex.status:
+            for j in ex.deps_in_run.get(nid, []):
+                dependents.setdefault(h.nodes[j]['name'], set()).add(h.nodes[nid]['name'])
+        pending_yield = None
+        release_batches: dict[str, int] = {}
+        batch_no = 0
+        aborted = False
+
+        def expected_present() -> set:
+            return {d for d in ok_done if dependents.get(d, set()) - finished}
+
+        for ev in obs.events:
+            kind = ev[0]
+            if kind == 'batch':
+                batch_no += 1
+            if kind == 'start' and not ev[2]:
+                present = set(ev[3])
+                for j in ex.deps_in_run.get(h.nid(ev[1]), []):
+                    dn = h.nodes[j]['name']
+                    if ex.status.get(j) in ('ok', 'loaded') and dn not in present:
+                        out.append(Finding('C17:dependency-result-missing-at-start', f'{ev[1]} started without result of {dn}'))
+            elif kind == 'yield':
+                pending_yield = (ev[1], ev[2] == 'ok')
+            elif kind == 'get_result':
+                if not ev[2]:
+                    out.append(Finding('C17:requested-result-released-before-capture', f'get_result({ev[1]}) after release'))
+            elif kind == 'delivered':
+                name, ok = pending_yield
+                if ok:
+                    ok_done.add(name)
+                finished.add(name)
+                present = set(ev[2])
+                want = expected_present()
+                for d in sorted(present - want):
+                    out.append(Finding('C17:result-retained-after-last-dependent-finished',
+                                       f'after {name} was processed, result of {d} is still held'))
+                for d in sorted(want - present):
+                    out.append(Finding('C17:result-released-while-a-dependent-is-unfinished',
+                                       f'after {name} was processed, result of {d} is gone but {sorted(dependents[d] - finished)} still need it'))
+                deps_of = {h.nodes[j]['name'] for j in ex.deps_in_run.get(h.nid(name), [])}
+                for d in deps_of:
+                    if len(dependents.get(d, ())) >= 2:
+                        release_batches.setdefault(d, batch_no)
+                        if release_batches[d] != batch_no:
+                            nontrivial = True
+                if not ok and deps_of:
+                    nontrivial = True
+            elif kind == 'close':
+                if obs.outcome == 'return' and ev[1]:
+                    out.append(Finding('C17:results-held-after-normal-return', f'runner still holds {ev[1]} at close'))
+    else:
+        if obs.outcome == 'return' and obs.real_results_left:
+            names = [h.nodes[i]['name'] for i in obs.real_results_left]
+            failed_any = any(s == 'failed' for s in ex.status.values())
+            out.append(Finding(f'C17:real-runner-holds-results-after-normal-return:{"with" if failed_any else "no"}-failures',
+                               f'{backend} runner still holds results of {names}'))
+        if any(s == 'failed' for s in ex.status.values()):
+            nontrivial = True
+        # spy-level: remove_results never names a task that a submitted-unfinished dependent still needs
+        finished: set[str] = set()
+        for ev in obs.events:
+            if ev[0] == 'yield':
+                pass
+            if ev[0] == 'delivered':
+                finished.add(ev[1])
+            if ev[0] == 'remove':
+                cur = None
+                for d in ev[1]:
+                    for nid in ex.status:
+                        pn = h.nodes[nid]['name']
+                        if h.nid(d) in ex.deps_in_run.get(nid, []) and pn not in finished and pn != _last_yield(obs.events, ev):
+                            out.append(Finding('C17:result-released-while-a-dependent-is-unfinished',
+                                               f'remove_results({ev[1]}) while {pn} still needs {d}'))
+    return _dedupe(out), nontrivial
+
+
+def _last_yield(events, upto):
+    last = None
+    for ev in events:
+        if ev is upto:
+            return last
+        if ev[0] == 'yield':
+            last = ev[1]
+    return last
